@@ -269,7 +269,7 @@ def verus_files(S: Sources):
     # ---- integer core of Display::fmt as a region
     f_fmt = fd.find_fn("fmt", impl=r"impl fmt::Display for FineDuration")
     # from `let picos = self.picos;` to the end of the statement `let mut str: String = match .. ;` (found by bracket matching)
-    txt, line = rsx.region(f_fmt, r"let picos = self \. picos ;", r"let mut str : String = match", include_end=True)
+    txt, line = rsx.region(f_fmt, r"let picos = self \. picos ;", r"let mut str : String =", include_end=True)
     body_all = f_fmt.body_text()
     at = body_all.index(txt) + len(txt)
     depth, i = 0, at
@@ -285,7 +285,7 @@ def verus_files(S: Sources):
     import re
     subs = [
         (r"self\s*\.\s*picos", "this.picos", 1),
-        (r"let\s+mut\s+str\s*:\s*String\s*=\s*match", "let str: Repr = match", 1),
+        (r"let\s+mut\s+str\s*:\s*String\s*=", "let str: Repr =", 1),
         # `(<integer expression>).to_string()` -> the integer itself
         (r"\(([^()]*(?:\([^()]*\)[^()]*)*)\)\s*\.\s*to_string\(\)", r"Repr::Int(\1)", 1),
         # `let val = ((<integer expression>) as f64) / multiple as f64;` -> the integer expression itself
